@@ -851,6 +851,14 @@ impl LineRow {
         })
     }
 
+    /// Set the address register without the tombstone handling of `DW_LNE_set_address`.
+    #[cfg(feature = "write")]
+    pub(crate) fn set_address(&mut self, address: u64) {
+        self.tombstone = false;
+        self.address = address;
+        self.op_index.0 = 0;
+    }
+
     /// Perform any reset that was required after copying the previous row.
     #[inline]
     pub fn reset<R: Reader>(&mut self, header: &LineProgramHeader<R>) {
